@@ -37,7 +37,11 @@ def build(tier, seed):
         hn = "c14_psk8_demod_s%d" % i
         items.append((Harness(hn, {"sigma": s, "input": "all 8 triples; perturbation (e_re, e_im), each every f64 in [-%g, %g]" % (eps, eps),
                                     "oracle": "three LLRs in modulator bit order whose signs give back the transmitted triple"}, 6.0, stubs="CONTRACT"),
-                      "crate::c14_psk8_demod!(%s, %s, %s);" % (hn, fl(s), fl(eps))))
+                      "crate::c14_psk8_demod!(%s, %s, %s, false);" % (hn, fl(s), fl(eps))))
+        hn = "c14_psk8_demod_exact_s%d" % i
+        items.append((Harness(hn, {"sigma": s, "input": "all 8 triples, noiseless sample",
+                                    "oracle": "signs as above, and each LLR within +-2.08 of the max-log value computed from the pinned constellation and bit partitions (pins which symbols enter which max* set, and the constants)"}, 3.0, stubs="CONTRACT"),
+                      "crate::c14_psk8_demod!(%s, %s, 0.0, true);" % (hn, fl(s))))
     meta = {
         "functions": ["BpskDemodulator::{new, from_noise_sigma, demodulate}", "BpskModulator::{modulate, modulate_bit}", "Psk8Modulator::{modulate, modulate_bits}",
                       "Psk8Demodulator::{new, from_noise_sigma, demodulate, demodulate_symbol}", "modulation::{dot, maxstar}"],
